@@ -66,6 +66,7 @@ type stdioClientTransport struct {
 	cancel    context.CancelFunc
 	closeOnce sync.Once
 	closed    atomic.Bool
+	waitDone  chan struct{} // Closed by processWatcher (the only caller of Cmd.Wait) once the process has been waited for.
 
 	sessionID string
 	logger    Logger
@@ -187,6 +188,7 @@ func (t *stdioClientTransport) startProcessLocked() error {
 
 	// Store references.
 	t.process = cmd
+	t.waitDone = make(chan struct{})
 	t.stdin = stdin
 	t.stdout = stdout
 	t.stderr = stderr
@@ -595,6 +597,7 @@ func (t *stdioClientTransport) processWatcher() {
 	}
 
 	err := t.process.Wait()
+	close(t.waitDone)
 	if !t.closed.Load() {
 		if err != nil {
 			t.logger.Debugf("Process exited with error: %v", err)
@@ -657,15 +660,9 @@ func (t *stdioClientTransport) close() error {
 			t.logger.Debugf("Failed to send SIGTERM: %v", err)
 		}
 
-		// Wait a bit for graceful shutdown.
-		done := make(chan struct{})
-		go func() {
-			t.process.Wait()
-			close(done)
-		}()
-
+		// Wait a bit for graceful shutdown (processWatcher waits for the process; Cmd.Wait must be called once).
 		select {
-		case <-done:
+		case <-t.waitDone:
 			t.logger.Debugf("Process terminated gracefully")
 		case <-time.After(5 * time.Second):
 			// Force kill.
